@@ -151,6 +151,50 @@ def check_triangles_are_polygons(ctx, prog, rule="c12.corners"):
     ctx.floor(rule, "vertex-count tests in the geometry code", n, 1)
 
 
+def check_closed_outlines(ctx, prog, rule="c12.exit"):
+    """area, perimeter and orientation (normal) of a polygon are sums over its edges, and the outline is closed: the edge from the last vertex back to the first
+    is one of them.  Each of the three functions must show the wrap-around - an index taken modulo the vertex count, or a cycled iterator - wherever it pairs
+    consecutive vertices; `windows(2)` or `zip(skip(1))` alone walk the open chain and lose an edge (the signed area, and with it the side the element faces,
+    can change sign)."""
+    n = 0
+    for nm in ("area", "perimeter", "normal"):
+        cand = [g for g in prog.fns.values() if g.root == g.id and g.path.endswith("types::geometry::HasSurface>::" + nm) and "OPoint" in g.path and "Vec<" in g.path]
+        if len(cand) != 1:
+            raise AnalysisError("Polygon::%s (HasSurface for Vec<Point2>) not found" % nm)
+        f = cand[0]
+        bodies = [f] + prog.closures_of(f)
+        pairs, wrap = [], []
+        for g in bodies:
+            sc = Scope(prog, g)
+            for b, t in g.body.calls():
+                cn = short_callee(callee_name(t) or "")
+                if cn in ("windows", "array_windows", "tuple_windows"):
+                    pairs.append(cn)
+                if cn == "skip":
+                    pairs.append("skip")
+                if cn in ("cycle", "circular_tuple_windows"):
+                    wrap.append(cn)
+            for b, i, st in g.body.statements():
+                if st["s"] == "assign" and st["rv"]["r"] == "bin" and st["rv"]["op"] in ("Rem", "RemWithOverflow", "RemUnchecked"):
+                    wrap.append("% n")
+                if st["s"] == "assign" and st["rv"]["r"] == "bin" and st["rv"]["op"] in ("Add", "AddWithOverflow") :
+                    v = strip(sc.rvalue(st["rv"]))
+                    if any(strip(x)[0] == "k" and str(strip(x)[1]) == "1" for x in v[2:4]):
+                        pairs.append("i + 1")
+        n += 1
+        key = "%s|closed-outline|%s" % (rule, nm)
+        if not pairs:
+            if nm == "normal":
+                continue        # not an edge sum at all: `c12.exit|polygon-normal` (below) decides whether it reads every vertex
+            raise AnalysisError("Polygon::%s: how consecutive vertices are paired was not recognised" % nm)
+        if wrap:
+            ctx.ok(rule, key, "consecutive vertices are paired with a wrap-around (%s): the closing edge is included" % sorted(set(wrap))[0], f.loc())
+        else:
+            ctx.violation(rule, key, "Polygon::%s pairs consecutive vertices with %s and never wraps around: the edge from the last vertex back to the first is missing, so the "
+                          "sum is that of an open chain (a normal can flip: the sun is then behind the element at every hour)" % (nm, "/".join(sorted(set(pairs)))), f.loc())
+    ctx.floor(rule, "polygon edge sums", n, 2)
+
+
 def run(ctx):
     prog = ctx.prog
     f = prog.method("types::model::Model", None, "compute_fshobst")
@@ -158,6 +202,7 @@ def run(ctx):
     ups = updates(root)
     check_every_hour_counts(ctx, prog, f)
     check_triangles_are_polygons(ctx, prog)
+    check_closed_outlines(ctx, prog)
     # D1
     acc = [u for u in ups if u["dest"] == "fshobst_sum" and u["op"] == "+="]
     ctx.require(len(acc) == 1, "compute_fshobst: `fshobst_sum += ..` not found")
